@@ -326,9 +326,12 @@ pub fn sweep_families(thorough: bool) -> Vec<(&'static str, Enc, u32)> {
             ("G33", Enc::U, 1),
             ("T22", Enc::U, 1),
             ("O21", Enc::U, 1),
-            ("G43", Enc::M, 8),
-            ("T32", Enc::M, 8),
-            ("O31", Enc::M, 8),
+            ("G43", Enc::M, 2),
+            ("T32", Enc::M, 2),
+            ("O31", Enc::M, 2),
+            ("G34", Enc::M, 4),
+            ("T23", Enc::M, 4),
+            ("O13", Enc::M, 4),
         ]
     } else {
         vec![
